@@ -346,6 +346,16 @@ Theorem C02_check_power_plant_sound : forall tol p eu amb avail n m cp tprod tin
 Proof. exact check_power_plant_sound. Qed.
 Print Assumptions C02_check_power_plant_sound.
 
+Theorem C02_check_fle_sound : forall tol p eu amb avail n m cp tprod tinj tchp eff chpf net fle,
+  check_fle tol p eu amb avail n m cp tprod tinj tchp eff chpf net fle = true ->
+  exists tinj' etau reinj o,
+    power_plant p eu amb avail n m cp tprod tinj tchp eff chpf = Ok (tinj', etau, reinj, o) /\
+    length fle = length net /\
+    forall t, (t < length net)%nat -> ~ arr_at (o_hete o) t == 0 ->
+      approx tol (nth t fle 0 * arr_at (o_hete o) t) (nth t net 0).
+Proof. exact check_fle_sound. Qed.
+Print Assumptions C02_check_fle_sound.
+
 (* ---- round 2: SurfacePlantSUTRA (reservoir thermal energy storage) ---- *)
 
 (* every step, for a positive time step: injected + produced = simulated heat (as power), total = produced + auxiliary,
@@ -476,3 +486,7 @@ Proof. eexists. split. vm_compute. reflexivity. repeat split; vm_compute; reflex
 
 Example C02_ex_round : py_round (5 # 2) = 2%Z /\ py_round (7 # 2) = 4%Z /\ py_round (262968 # 8766) = 30%Z.
 Proof. repeat split; vm_compute; reflexivity. Qed.
+
+Example C02_ex_fle :
+  check_fle (1 # 1000000000) P_SUBORC EU_ELEC 15 [1 # 10] 2 50 4000 [150] 70 120 (9 # 10) (1 # 2) [3] [3 # 32] = true.
+Proof. vm_compute. reflexivity. Qed.
